@@ -71,7 +71,7 @@ REQUIRED = ['mode:' + m for m in MODES] + [
     'mech:pk', 'regimen', 'unsorted', 'out_sel', 'df', 'array', 'wm', 'stat', 'ns=None',
     'kind:gauss', 'kind:lognorm', 'kind:trunc', 'kind:pooled', 'kind:hetero', 'noncentered', 'cov', 'cov:1d', 'cov:2d',
     'red', 'ns=last', 'ns!=last', 'last:hll', 'last:set', 'last:none', 'inner:pop', 'prior:table', 'prior:cont',
-    'post:poplevel', 'post:param_map', 'post:individual', 'post:default_individual', 'decoded', 'stat:hetero_rows']
+    'post:poplevel', 'post:param_map', 'post:individual', 'post:default_individual', 'decoded', 'stat:hetero_rows', 'post:param_map_cycle']
 TINY = 1e-9
 ENV_SD = 9.0
 SEEDS = st.integers(0, 2 ** 31 - 2)
@@ -313,6 +313,12 @@ def _draw_dataset(draw, row_fn, max_chain=3, max_draw=10, max_ind=4, poplevel_on
         else:
             vals.append([rows[k][j] for k in range(n_cells)])
     pmap = [('var %d' % j) if gen.chance(draw, 0.3) else None for j in range(n_tot)]
+    if n_tot >= 2 and gen.chance(draw, 0.2):
+        # the dataset stores some parameters under names that are the MODEL's names of other parameters (a cycle,
+        # e.g. a swap: model 'a' <- variable 'b', model 'b' <- variable 'a'); '@k' = model name of parameter k
+        sub = list(draw(st.permutations(list(range(n_tot))))[:draw(st.integers(2, min(3, n_tot)))])
+        for a, b in zip(sub, sub[1:] + sub[:1]):
+            pmap[a] = '@%d' % b
     return dict(n_chain=n_chain, n_draw=n_draw, ids=ids, level=level, vals=vals, map=pmap,
                 extra=draw(st.booleans()), order=list(draw(st.permutations(list(range(n_tot + 1))))))
 
@@ -788,6 +794,8 @@ def _dataset(ds, names):
     pmap = {}
     for j, nm in enumerate(names):
         var = ds['map'][j] if ds['map'][j] is not None else nm
+        if var.startswith('@'):
+            var = names[int(var[1:])]
         if ds['map'][j] is not None:
             pmap[nm] = var
         if ds['level'][j] == 'pop':
@@ -1673,6 +1681,8 @@ def classify(spec):
             labs.append('post:poplevel')
         if any(m is not None for m in ds['map']):
             labs.append('post:param_map')
+        if any(m is not None and m.startswith('@') for m in ds['map']):
+            labs.append('post:param_map_cycle')
         if s['individual'] is not None and len(ds['ids']) > 1 and s['individual'] != ds['ids'][0]:
             labs.append('post:individual')
         if s['individual'] is None and len(ds['ids']) > 1:
